@@ -126,7 +126,7 @@ def replay(chk, rep):
         return sitemodel.replay_site(chk, rep["witness"], "C01", ('C01',))
     w = rep["witness"]
     if w.get("burst"):
-        r = pcommon.burst_worker(dict(build=prun.build_daemon("c01-replay"), seed=w["seed"], n=w["n"], service=w["service"], after=w.get("after"), sock=w.get("sock")))
+        r = pcommon.burst_worker(dict(build=prun.build_daemon("c01-replay"), seed=w["seed"], n=w["n"], service=w["service"], after=w.get("after"), sock=w.get("sock"), pad4096=w.get("pad4096")))
         for v in r["viol"]:
             print(v[3])
         return 1 if r["viol"] else 0
